@@ -282,6 +282,10 @@ impl Changeset {
     }
 }
 
+/// Upper bound for allocations sized by a length prefix read from the wire:
+/// a peer must not be able to make us reserve memory unrelated to what it sent.
+const MAX_PREALLOC_LEN: usize = 1024;
+
 impl<'a, C> Readable<'a, C> for Changeset
 where
     C: Context,
@@ -314,7 +318,7 @@ where
             }
             2 => {
                 let versions_len = usize::read_from(reader)?;
-                let mut versions = Vec::with_capacity(versions_len);
+                let mut versions = Vec::with_capacity(versions_len.min(MAX_PREALLOC_LEN));
                 for _ in 0..versions_len {
                     let start = CrsqlDbVersion::read_from(reader)?;
                     let end = CrsqlDbVersion::read_from(reader)?;
